@@ -139,6 +139,20 @@ func Run(self, property, repo, verif string) (results []Result, err error) {
 			return true, ""
 		}})
 	}
+	// behaviour-preserving variants (/verif/neutral/*.diff): the property's check must stay silent on every one of them
+	neutrals, _ := filepath.Glob(filepath.Join(verif, "neutral", "*.diff"))
+	sort.Strings(neutrals)
+	for _, nf := range neutrals {
+		nf := nf
+		vs = append(vs, variant{name: "neutral " + filepath.Base(nf), kind: "neutral", apply: func(dir string) (bool, string) {
+			cmd := exec.Command("git", "apply", "--whitespace=nowarn", nf)
+			cmd.Dir = dir
+			if out, e := cmd.CombinedOutput(); e != nil {
+				return false, "patch no longer applies: " + strings.TrimSpace(string(out))
+			}
+			return true, ""
+		}})
+	}
 	results = make([]Result, len(vs))
 	sem := make(chan struct{}, 6)
 	var wg sync.WaitGroup
@@ -170,6 +184,9 @@ func Run(self, property, repo, verif string) (results []Result, err error) {
 				r.Outcome, r.Detail = "skipped", why
 				return
 			}
+			if b, e := os.ReadFile(filepath.Join(verif, "reference_funcs.json")); e == nil {
+				_ = os.WriteFile(filepath.Join(vv, "reference_funcs.json"), b, 0o644)
+			}
 			if b, e := os.ReadFile(filepath.Join(verif, "known_findings.json")); e == nil {
 				_ = os.WriteFile(filepath.Join(vv, "known_findings.json"), b, 0o644)
 			}
@@ -177,8 +194,25 @@ func Run(self, property, repo, verif string) (results []Result, err error) {
 			_ = os.Symlink(filepath.Join(verif, "checker", "fixtures"), filepath.Join(vv, "checker", "fixtures"))
 			cmd := exec.Command(self, "-property", property, "-tier", "quick", "-repo", dir, "-verif", vv)
 			cmd.Env = append(os.Environ(), "VERIF_TIER=quick", "GOMAXPROCS=3")
-			out, _ := cmd.CombinedOutput()
+			out, runErr := cmd.CombinedOutput()
 			text := string(out)
+			if v.kind == "neutral" {
+				switch {
+				case strings.Contains(text, "cannot load"):
+					r.Outcome, r.Detail = "skipped", "variant does not type-check"
+				case runErr == nil && !strings.Contains(text, "VIOLATION"):
+					r.Outcome = "silent"
+				default:
+					r.Outcome = "false-alarm"
+					for _, l := range strings.Split(text, "\n") {
+						if strings.HasPrefix(l, "  rule ") || strings.HasPrefix(l, "  checker failure") {
+							r.Detail = strings.TrimSpace(l)
+							break
+						}
+					}
+				}
+				return
+			}
 			switch {
 			case strings.Contains(text, "cannot load"):
 				r.Outcome, r.Detail = "skipped", "variant does not type-check"
